@@ -311,6 +311,10 @@ class Ops:
                 poly = None
         kind = self.result_kind(a, b, opname)
         dtype = self.promote(a.dtype, b.dtype)
+        if {a.dtype, b.dtype} == {"M", "Cfg"} and kind == "tensor" and len(a.axes) >= 1 and len(b.axes) >= 1 and not a.is_py and not b.is_py:
+            # two tensors with dimensions: torch promotes to the wider of the two dtypes, so the configuration tensor's dtype can win
+            # (a 0-d tensor — `leak[i]`, a norm — does not take part in the promotion and leaves the matrix dtype alone)
+            dtype = "Mixed"
         if dtype == "Py" and kind in ("tensor", "ndarray"):
             dtype = a.dtype if not a.is_py else b.dtype  # a tensor combined with a python number keeps the tensor's dtype class
         if opname == "div" and kind in ("pyint",):
@@ -1223,7 +1227,7 @@ class Ops:
             if isinstance(op, ast.Add) and trhs is not None and trhs.gen - tcur.gen:
                 # symmetric accumulation over a generic row index
                 gen = tcur.gen
-            new = new.but(alias=tcur.alias, gen=gen, p=p)
+            new = new.but(alias=tcur.alias, gen=gen, p=p, dtype=tcur.dtype if tcur.kind == "tensor" and new.dtype in ("Mixed", "Cfg", "M") and tcur.dtype in ("M", "Cfg") else new.dtype)  # an in-place operation never changes the dtype of its target
         elif tcur is not None and isinstance(new, TV) and isinstance(op, ast.Add):
             trhs = tv_of(rhs)
             if trhs is not None and trhs.gen - tcur.gen:
